@@ -26,3 +26,23 @@ Theorem C06_round_trip :
     (forall c t, enc_b c = Some t -> exists c', dec_b t = Some c' /\ enc_a c' = enc_a c) ->
     forall x t, xt call text dec_a enc_b x = Some t -> xt call text dec_b enc_a t = xt call text dec_a enc_a x.
 Proof. exact round_trip_equals_direct. Qed.
+
+(* For B = MessagePack the premise is discharged in the model of rmp/rmp-serde
+   (theories/MsgpackCodecProofs.v): for every stream of values rmp can encode
+   (64-bit integers, 32-bit lengths, UTF-8 strings, at most 1023 collections
+   around a scalar), of any size, MessagePack -> MessagePack through xt reads
+   back exactly the events each document was written from and writes exactly
+   the bytes it read, from a reader and from a slice. *)
+From XtModel Require Import MsgpackModel MsgpackCodecProofs.
+
+Theorem C06_msgpack_fixed_point_reader :
+  forall (utf8_valid : bytes -> bool) (vs : list mval), Forall (encodable utf8_valid) vs ->
+    let r := transcode_reader utf8_valid (flat_map enc_val vs) in
+    fst r = map evs vs /\ mm_ok r = true /\ mm_output r = flat_map enc_val vs.
+Proof. exact reader_identity. Qed.
+
+Theorem C06_msgpack_fixed_point_slice :
+  forall (utf8_valid : bytes -> bool) (vs : list mval), Forall (encodable utf8_valid) vs ->
+    let s := transcode_slice utf8_valid (flat_map enc_val vs) in
+    fst s = map evs vs /\ mm_ok s = true /\ mm_output s = flat_map enc_val vs.
+Proof. exact slice_identity. Qed.
